@@ -73,6 +73,10 @@ fn cmd_check(args: &[String]) -> i32 {
     let mut frag = checks::Frag::new();
     let budget = std::time::Duration::from_secs(budget_s);
     let e2_first = !checks::e2_jobs(&prop, tier).is_empty();
+    if prop == "C14" && checks::run_abort_probe(&mut frag) {
+        // the process dies in one of the histories the exploration would run as well: report that and stop
+        return checks::finish(&prop, tier, frag, t0.elapsed().as_secs_f64(), frag_path.as_deref());
+    }
     checks::run_e1(&prop, tier, if e2_first { budget / 2 } else { budget }, &mut frag);
     checks::escalate(&prop, &mut frag);
     checks::run_e2(&prop, tier, budget.saturating_sub(t0.elapsed()), &mut frag);
@@ -235,6 +239,7 @@ fn main() {
         Some("check") => std::process::exit(cmd_check(&args)),
         Some("replay") => std::process::exit(cmd_replay(&args)),
         Some("export-plans") => std::process::exit(cmd_export(&args)),
+        Some("abort-probe") => std::process::exit(checks::abort_probe_child()),
         _ => {
             eprintln!("usage: mc <cmd>");
             std::process::exit(2);
